@@ -54,33 +54,31 @@ def strat(tier):
 
     def hist(pr):
         md, fl, kind, n = pr
-        solve = st.builds(lambda i, N, sv, mon, rep: dict(op="solve", field=i, N=N, saves=sv, mon=mon, repeat=rep), st.integers(0, 2), st.integers(1, 6),
-                          st.one_of(st.none(), st.lists(gen.f(0.02, 0.98), min_size=1, max_size=4)), _monitors(kind), st.booleans())
-        restart = st.builds(lambda M, mon: dict(op="restart", M=M, mon=mon), st.integers(1, 5), _monitors(kind))
-        return st.builds(lambda L, num, integ, cfl, fields, ctor, calls: dict(model=md, flux=fl, mesh=dict(kind="uni", n=n, length=L, x0=0.0), num=num, integ=integ, cfl=cfl, fields=fields, ctor_mon=ctor, calls=calls),
+        cidx = st.sampled_from([0, 0, 1])          # CFL number of the call (two values per history: results must not depend on what earlier calls used)
+        solve = st.builds(lambda i, N, sv, mon, rep, ci: dict(op="solve", field=i, N=N, saves=sv, mon=mon, repeat=rep, cfl=ci), st.integers(0, 2), st.integers(1, 6),
+                          st.one_of(st.none(), st.lists(gen.f(0.02, 0.98), min_size=1, max_size=4)), _monitors(kind), st.booleans(), cidx)
+        restart = st.builds(lambda M, mon, ci: dict(op="restart", M=M, mon=mon, cfl=ci), st.integers(1, 5), _monitors(kind), cidx)
+        return st.builds(lambda L, num, integ, cfl, cfl2, fields, ctor, calls: dict(model=md, flux=fl, mesh=dict(kind="uni", n=n, length=L, x0=0.0), num=num, integ=integ, cfl=cfl, cfl2=cfl2, fields=fields, ctor_mon=ctor, calls=calls),
                          gen.logf(-1, 1), st.sampled_from([dict(name="extrapol1"), dict(name="extrapol3"), dict(name="muscl", limiter="minmod")]),
-                         st.sampled_from(ex + im + ["gear", "gear"]), gen.f(0.1, 0.8), _fields(kind), st.booleans(), st.lists(st.one_of(solve, solve, restart), min_size=2, max_size=5))
+                         st.sampled_from(ex + im + ["gear", "gear"]), gen.f(0.1, 0.8), gen.f(0.1, 0.8), _fields(kind), st.booleans(), st.lists(st.one_of(solve, solve, restart), min_size=2, max_size=5))
     return _problem().flatmap(hist)
 
 
-class Model(object):
-    """reference: fresh solver objects stepping a field"""
+class Chain(object):
+    """reference computation: a FRESH solver object of the same class stepping a field (calc_timestep -> step); a restart continues the chain
+    (same object, so a multistep history carries over exactly as restart() promises), possibly with another CFL number"""
 
-    def __init__(self, P, integ, cfl, fields):
-        self.P, self.integ, self.cfl, self.fields = P, integ, cfl, fields
-        self.cache = {}
+    def __init__(self, P, integ, field):
+        self.P = P
+        self.solver = cases.build_integrator(integ, P.mesh, P.disc)
+        self.states = [field.copy()]
 
-    def traj(self, i, K):
-        """states after 0..K iterations from field i (fresh solver, calc_timestep -> step)"""
-        st_ = self.cache.get(i)
-        if st_ is None:
-            st_ = dict(solver=cases.build_integrator(self.integ, self.P.mesh, self.P.disc), states=[self.fields[i].copy()])
-            self.cache[i] = st_
-        while len(st_["states"]) <= K:
-            g = st_["states"][-1].copy()
-            sim.advance(st_["solver"], self.P.disc, g, self.cfl)
-            st_["states"].append(g)
-        return st_["states"]
+    def advance(self, cfl, k):
+        for _ in range(k):
+            g = self.states[-1].copy()
+            sim.advance(self.solver, self.P.disc, g, cfl)
+            self.states.append(g)
+        return self.states
 
 
 def _eq(a, b, tol):
@@ -165,16 +163,19 @@ def check(case):
     P = P0
     if md["name"] == "burgers" and any(np.any(f.data[0] == 0) for f in fields):
         raise Skip("burgers cell with u = 0")
-    integ, cfl = case["integ"], case["cfl"]
+    integ = case["integ"]
+    cfls = [case["cfl"], case.get("cfl2", case["cfl"])]
     implicit = cases.is_implicit(integ)
     linear_cached = implicit and md["name"] == "convection"
     xtol = None          # across objects: bitwise too (the Jacobian of linear models is cached per computation, not per object)
-    model = Model(P, integ, cfl, fields)
+    chain = None
     ctor = {"ctorres": {"type": "residual", "frequency": 2}} if case["ctor_mon"] else None
     S = cases.build_integrator(integ, P.mesh, P.disc, monitors=ctor)
     last = None        # (field index, total iterations, returned final field) of the last call when it returned the final state
     ncalls, rich = 0, 0
     labels = ["integ:" + integ, "model:" + md["name"], "implicit" if implicit else "explicit"]
+    if len(set(cfls[c.get("cfl", 0)] for c in case["calls"])) > 1:
+        labels.append("cfl-changes-between-calls")
     for ci, call in enumerate(case["calls"]):
         mon = _copy_mon(call.get("mon"))
         if call["op"] == "restart":
@@ -182,7 +183,8 @@ def check(case):
                 continue
             i, Ntot, flast = last
             M = call["M"]
-            states = model.traj(i, Ntot + M)
+            cfl = cfls[call.get("cfl", 0)]
+            states = chain.advance(cfl, M)
             if not all(sim.admissible(P.smd, s_.data) for s_ in states):
                 raise Skip("trajectory leaves the admissible set")
             what = "call %d: restart(M=%d) after %d iterations from field %d (%s, cfl=%g)" % (ci, M, Ntot, i, integ, cfl)
@@ -200,7 +202,9 @@ def check(case):
             rich += 1 if mon else 0
             continue
         i, N = call["field"], call["N"]
-        states = model.traj(i, N)
+        cfl = cfls[call.get("cfl", 0)]
+        chain = Chain(P, integ, fields[i])
+        states = chain.advance(cfl, N)
         if not all(sim.admissible(P.smd, s_.data) for s_ in states):
             raise Skip("trajectory leaves the admissible set")
         f0 = fields[i]
